@@ -11,11 +11,14 @@
    CoreAlphabet (replay only, one symbol longer than the whole alphabet) adds ';' so that numeric
    character references can be spelled: * [ < & # 1 ; LF. *)
 EXTENDS MdEscape, TLC, Json, FiniteSets, SequencesExt
-CONSTANTS MaxLen, Len16, WsLen, GenLen, GenWs, GenCore
+CONSTANTS MaxLen, Len16, WsLen, GenLen, GenWs, GenCore, GenWsCore
 Alphabet == {42, 95, 91, 93, 40, 41, LT, GT, AMP, HASH, 45, 49, 46, SP, LF, CR, 96, BS, 97}
 Alphabet16 == Alphabet \ {95, 93, 41}
 WsAlphabet == {TAB, SP, LF, CR, 97, HASH, 45}
 CoreAlphabet == {42, 91, LT, AMP, HASH, 49, SEMI, LF}
+\* the line-structure core of WsAlphabet, enumerated two symbols longer: blank (white-space only) lines between
+\* text lines and indented lines after them need 6-7 symbols (a LF SP LF TAB a)
+WsCoreAlphabet == {TAB, SP, LF, 97}
 Dict == <<
   <<43,32,97>>, <<97,10,61,61,61>>, <<97,10,45,45,45>>, <<126,126,126,10,97>>, <<96,96,96,10,97>>,
   <<124,97,124,10,124,45,124,10,124,98,124>>, <<33,91,97,93,40,98,41>>, <<91,97,93,40,98,41>>,
@@ -43,6 +46,7 @@ Grow(c) == s' = Append(s, c) /\ md' = MdOf(s') /\ cd' = CdOf(s')
 Next == \/ Len(s) < MaxLen /\ \E c \in Alphabet : Grow(c)
         \/ Len(s) < Len16 /\ Over16 /\ \E c \in Alphabet16 : Grow(c)
         \/ Len(s) < WsLen /\ OverWs /\ \E c \in WsAlphabet : Grow(c)
+        \/ Len(s) < GenWsCore /\ (\A k \in 1..Len(s) : s[k] \in WsCoreAlphabet) /\ \E c \in WsCoreAlphabet : Grow(c)
 
 (* ---- paragraph context ---- *)
 \* (a) holds for the escaper as found and with the repair
@@ -72,11 +76,12 @@ ASSUME \A k \in 1..Len(Dict) : /\ RoundTrip(Dict[k], MdEsc(Dict[k], TRUE)) /\ CF
 
 (* ---- case export: inputs only ---- *)
 DictSet == {Dict[k] : k \in 1..Len(Dict)}
-Strings == SeqsUpTo(Alphabet, GenLen) \cup SeqsUpTo(WsAlphabet, GenWs) \cup SeqsUpTo(CoreAlphabet, GenCore) \cup DictSet
+Strings == SeqsUpTo(Alphabet, GenLen) \cup SeqsUpTo(WsAlphabet, GenWs) \cup SeqsUpTo(CoreAlphabet, GenCore) \cup SeqsUpTo(WsCoreAlphabet, GenWsCore) \cup DictSet
 \* which slice a string belongs to (the check shows the longest strings of slices "a" and "c" in fewer placements
 \* in the thorough tier): d dictionary, w white-space alphabet, a whole alphabet, c core alphabet
 Kind(x) == IF x \in DictSet THEN "d"
            ELSE IF Len(x) <= GenWs /\ (\A k \in 1..Len(x) : x[k] \in WsAlphabet) THEN "w"
+           ELSE IF \A k \in 1..Len(x) : x[k] \in WsCoreAlphabet THEN "w"
            ELSE IF Len(x) <= GenLen /\ (\A k \in 1..Len(x) : x[k] \in Alphabet) THEN "a" ELSE "c"
 Cases == LET S == SetToSeq(Strings) IN [i \in 1..Len(S) |-> [id |-> i, s |-> S[i], k |-> Kind(S[i])]]
 ASSUME ndJsonSerialize("cases.ndjson", Cases)
